@@ -1186,15 +1186,29 @@ impl Core {
 			return Ok((None, None));
 		}
 
-		// Flush all memtables except the last to SST
+		// Flush all memtables except the last to SST. Flushing a memtable marks its whole
+		// segment as obsolete (log_number = segment + 1): if the last memtable is a later
+		// part of a segment that had to be split, it must be flushed as well - otherwise the
+		// rest of that segment, and everything appended to it afterwards, would exist in
+		// memory only and be skipped by the next recovery.
 		let memtable_count = memtables.len();
-		if memtable_count > 1 {
-			log::info!("Recovery: flushing {} intermediate memtables to SST", memtable_count - 1);
-			for (memtable, wal_number) in memtables.iter().take(memtable_count - 1) {
+		let last_shares_segment =
+			memtable_count > 1 && memtables[memtable_count - 2].1 == memtables[memtable_count - 1].1;
+		let flush_count = if last_shares_segment {
+			memtable_count
+		} else {
+			memtable_count - 1
+		};
+		if flush_count > 0 {
+			log::info!("Recovery: flushing {} recovered memtables to SST", flush_count);
+			for (memtable, wal_number) in memtables.iter().take(flush_count) {
 				if !memtable.is_empty() {
 					flush_memtable(Arc::clone(memtable), *wal_number)?;
 				}
 			}
+		}
+		if last_shares_segment {
+			return Ok((wal_seq_num_opt, None));
 		}
 
 		// Return the last memtable as the active one
@@ -1299,11 +1313,14 @@ impl Core {
 		// removed it: the writer opened before recovery would keep appending to the old,
 		// unlinked file. Reopen it on what is on disk now.
 		{
+			// (on the manifest's log number as it is now: flushes during recovery advance it,
+			// and a segment below it would be skipped by the next recovery)
+			let log_number_now = inner.level_manifest.read()?.get_log_number();
 			let mut wal_guard = inner.wal.write();
 			wal_guard.close()?;
 			*wal_guard = Wal::open_with_min_log_number(
 				&wal_path,
-				min_wal_number,
+				log_number_now,
 				wal::Options::default(),
 			)?;
 		}
@@ -1736,10 +1753,11 @@ impl Tree {
 		// Reopen the WAL writer on the restored directory - after recovery, which may have
 		// replaced or removed the segment file by repairing it
 		{
+			let log_number_now = self.core.inner.level_manifest.read()?.get_log_number();
 			let mut wal_guard = self.core.inner.wal.write();
 			let new_wal = Wal::open_with_min_log_number(
 				&wal_path,
-				manifest_log_number,
+				log_number_now,
 				wal::Options::default(),
 			)?;
 			*wal_guard = new_wal;
